@@ -135,10 +135,16 @@ def ess(ctx, A, be, ackey):
     k2 = S('k#v')
     Rv = mk_comp(seq_len(R), k2, index_term(R, k2))
     avg = T.app('mean_axis', T.app('stack', AX(0), Rv), AX(0))
-    bshape = T.tup(h, p)
-    rho = T.add(T.neg(T.div(T.add(T.neg(avg), T.app('broadcast', W, bshape)), T.app('broadcast', V, bshape))), T.ONE)
+    def rho_for(bshape):
+        return T.add(T.neg(T.div(T.add(T.neg(avg), T.app('broadcast', W, bshape)), T.app('broadcast', V, bshape))), T.ONE)
+    # W and var+ are broadcast over the lags: to (h, p) read from the sample, or to the shape of the averaged autocovariance itself
+    rho_alts = [rho_for(T.tup(h, p)), rho_for(T.tup(index_term(T.app('shape', avg), N(0)), index_term(T.app('shape', avg), N(1)))), rho_for(T.app('shape', avg))]
+    rho = rho_alts[0]
+    for cand in rho_alts[1:]:
+        if any(contains(ev.t(ls_.n), cand) for ls_ in ev.vf.loops if ls_.n is not None) or contains(ev.ret_term, cand):
+            rho = cand
     name_terms(rho=rho)
-    loops = [ls for ls in ev.vf.loops if ls.kind == 'for' and ls.seq_desc == 'windows_with_stride']
+    loops = [ls for ls in ev.vf.loops if ls.kind == 'for' and 'windows_with_stride' in (ls.seq_desc or '')]      # the windows themselves, or map / take_while over them
     if len(loops) != 1:
         ctx.unknown('C12.pairs', A, 'pairs', why='expected one loop over stride-2 windows of rho (found %d)' % len(loops), sp=sp)
         return
